@@ -239,6 +239,16 @@ func judgeHinted(entry string, ek entryKind, d deploy, query []byte, reply []byt
 		return fail(e+"/opt/unsolicited", "")
 	}
 	if nopt > 1 {
+		upOpts := 0
+		for _, x := range up.ex {
+			if x.kind == 'O' {
+				upOpts++
+			}
+		}
+		if upOpts > 1 && up.opt.present {
+			// label only: the upstream response itself carried several OPT records
+			return fail("reply/opt/upstream-duplicate-opt-passed-through", fmt.Sprintf("entry=%s opts=%d", e, nopt))
+		}
 		return fail(e+"/opt/duplicate", fmt.Sprint(nopt))
 	}
 
